@@ -19,6 +19,7 @@ type exprCase struct {
 	Equs   []rc.Item
 	E1, E2 []rc.Tok
 	N      int // org: program length; for: unused
+	Second int // org: 0 nothing else, 1 an `END k` line as well, 2 a second `ORG k` line after the code (k: the same entry point as a literal)
 	Style  rc.Style
 }
 
@@ -126,6 +127,9 @@ func genExprCase(t *rapid.T) exprCase {
 	c.Cfg.Processes = rapid.SampledFrom([]int64{8000, 1, 77}).Draw(t, "P")
 	var names []string
 	c.Equs, names = genEqus(t)
+	if c.Kind == "org" {
+		c.Second = rapid.SampledFrom([]int{0, 0, 1, 2}).Draw(t, "second")
+	}
 	depth := rapid.IntRange(0, 4).Draw(t, "depth")
 	c.E1 = genExpr(t, names, true, depth)
 	if c.Kind == "operand" {
@@ -325,6 +329,14 @@ func buildExprProgram(c exprCase, v *int64) []rc.Item {
 		items = append(items, rc.Item{Kind: rc.KOrg, Expr: adj(k)})
 		for i := 0; i < c.N; i++ {
 			items = append(items, dat(int64(i)))
+		}
+		// a second statement of the same entry point: whichever of the two the assembler
+		// follows, the first one's argument is still an argument
+		switch c.Second {
+		case 1:
+			items = append(items, rc.Item{Kind: rc.KEnd, Expr: rc.Toks(rc.N(k))})
+		case 2:
+			items = append(items, rc.Item{Kind: rc.KOrg, Expr: rc.Toks(rc.N(k))})
 		}
 	case "for":
 		k := int64(0)
